@@ -4,7 +4,7 @@
    send() passed the liveness test, in call order; s_taken = messages handed by the queue to a poll / to the WebSocket writer. *)
 From Coq Require Import NArith List Bool.
 Import ListNotations.
-From EIO Require Import Server ServerInv ServerProofs ServerCor ServerDelivery.
+From EIO Require Import Server ServerInv ServerProofs ServerCor ServerDelivery ServerReasons ServerResp ServerWs.
 Open Scope N_scope.
 
 (* conservation, for every reachable state: what was accepted is what was taken followed by what is still queued *)
@@ -53,9 +53,24 @@ Theorem c03_writer_sends_what_it_takes : forall cfg me e i c rd s, has i s = tru
     wsent c (ServerInv.outof (run_task cfg me e s)) ++ lost = took.
 Proof. exact writer_sends_what_it_takes. Qed.
 
+(* one transport, the right one (every step, from any state): the handshake, the reader and the writer of WebSocket connection c accept,
+   write to and close only c; a request on arrival touches only the WebSocket that came with it; long polls, heartbeats, the monitor,
+   message handlers, closers and application calls touch no WebSocket at all *)
+Theorem c03_task_touches_only_its_websocket : forall cfg me e s,
+  Forall (wonly (conn_of (t_task e))) (ServerReasons.outof (run_task cfg me e s)).
+Proof. exact task_touches_only_its_websocket. Qed.
+Theorem c03_request_touches_only_its_websocket : forall cfg me r q s,
+  Forall (wonly (r_conn q)) (ServerReasons.outof (handle_request cfg me r q s)).
+Proof. exact request_touches_only_its_websocket. Qed.
+Theorem c03_api_touches_no_websocket : forall cfg me a x s, Forall (wonly None) (ServerReasons.outof (run_api cfg me a x s)).
+Proof. exact api_touches_no_websocket. Qed.
+
 Print Assumptions c03_conservation.
 Print Assumptions c03_at_most_once.
 Print Assumptions c03_in_order.
 Print Assumptions c03_send_to_absent_is_noop.
 Print Assumptions c03_poll_response_is_taken.
 Print Assumptions c03_writer_sends_what_it_takes.
+Print Assumptions c03_task_touches_only_its_websocket.
+Print Assumptions c03_request_touches_only_its_websocket.
+Print Assumptions c03_api_touches_no_websocket.
